@@ -290,5 +290,4 @@ partial def loop (h : IO.FS.Stream) (t : Topo) : IO Unit := do
 
 end Ampverif.Model.C04Frames
 
-def main : IO Unit := do
-  Ampverif.Model.C04Frames.loop (← IO.getStdin) []
+-- `main` (line-protocol entry point) lives in Ampverif/Drivers/C04Frames.lean
